@@ -4,6 +4,8 @@ CONSTANTS
   CrashPoints = FALSE
   RollFaults = FALSE
   RollKills = FALSE
+  RoomFaults = FALSE
+  RollDesign = "rename"
   MaxCount = 3
   Limit = 4
   MaxWrite = 6
@@ -17,9 +19,11 @@ CONSTANTS
   FlushFaults = FALSE
   PreTmp = 0
   MaxDumps = 3
+  ListFaults = TRUE
+  DumpDesign = "cleanup-first"
   PreDumps = 5
   MaxIds = 12
 CONSTRAINT Bounded
 INVARIANTS TypeOK DumpCountBound
-PROPERTIES DumpOldestFirst DumpNewestKept
+PROPERTIES DumpNoGrowthAtMax DumpOldestFirst DumpNewestKept
 CHECK_DEADLOCK FALSE
